@@ -173,6 +173,8 @@ Plan genBuild(const std::string& prop, int tier, uint64_t batchSeed, uint64_t id
             op.set("same", 1);
         if (r.chance(1, 6))
             op.set("via", 1);  // the content arrives by copy assignment from a sibling object
+        if (r.chance(1, 8))
+            op.set("near", 1).set("nearpos", r.chance(1, 4) ? -1 : static_cast<int64_t>(r.below(1200))).set("nearx", 1 + static_cast<int64_t>(r.below(255)));
         if (r.chance(1, 2) || prevN[oi] < 0)
             op.set("hdr", 1).set("hseed", static_cast<int64_t>(r.next() >> 1));
         int64_t hi;
@@ -240,6 +242,9 @@ Plan genTecmp(const std::string& prop, int tier, uint64_t batchSeed, uint64_t id
     if (prop == "C15" && r.chance(1, 4))
         g.cfg().set("locale", 1);  // the process has a global C++ locale with digit grouping installed
     g.addNode(1, 3, 0, 0);
+    const bool aliasing = prop == "C15" && r.chance(1, 4);
+    if (aliasing)
+        g.addNode(2, 2, 1, 1).set("lat", 0).set("gap", 0);  // a capture module on the same receiver
     const size_t n = 1 + r.below(tier ? 40 : 16);
     for (size_t k = 0; k < n; ++k)
     {
@@ -271,6 +276,27 @@ Plan genTecmp(const std::string& prop, int tier, uint64_t batchSeed, uint64_t id
                                                                   static_cast<int64_t>(r.below(65536))}));
             else
                 op.set("mtype", r.pick<int64_t>({0, 4, 5, 0x0A, 0xFF, static_cast<int64_t>(r.below(256))}));
+        }
+        if (aliasing && r.chance(1, 3))
+        {
+            // Read as a capture-module header, a TECMP frame's counter sits in the device-id bytes and its message type in the
+            // stream-id byte. A capture-module endpoint with exactly these ids has a reassembly pending on the same decoder
+            // when the TECMP frame arrives (and another one, one off): it must not matter.
+            const int64_t ctr = static_cast<int64_t>(r.below(65536));
+            const int64_t tmt = op.get("mtype", 3);
+            op.set("ctr", ctr);
+            Item tecmpOp = op;
+            g.plan.items.pop_back();
+            for (int64_t d : {ctr, ctr ^ 1})
+            {
+                Item& raw = g.addOp(OP_RAW, 2, 1);
+                raw.set("dev", d).set("stream", tmt).set("mtype", 1).set("ver", 1);
+                Item m("m");
+                m.set("kind", 0).set("ptype", 0x20).set("len", r.range(1, 40)).set("id", g.msgId()).set("seg", 1);
+                raw.sub.push_back(std::move(m));
+            }
+            tecmpOp.set("t", g.clock += 2);
+            g.plan.items.push_back(tecmpOp);
         }
     }
     return g.finish();
@@ -360,8 +386,13 @@ Plan genStatus(const std::string& prop, int tier, uint64_t batchSeed, uint64_t i
                     if (it != lastStatus.end() && (m.get("kind") == wire::K_CMSTAT || m.get("kind") == wire::K_IFSTAT) && r.chance(1, 5))
                     {
                         m = it->second;
-                        switch (r.below(4))
+                        m.erase("tailx");
+                        switch (r.below(5))
                         {
+                            case 3:
+                                // one of the LAST payload bytes differs (vendor data, a string's tail)
+                                m.set("tailx", 1 + static_cast<int64_t>(r.below(255))).set("tailo", static_cast<int64_t>(r.below(7)));
+                                break;
                             case 0:
                                 m.set("ts", m.get("ts") + 1);
                                 break;
